@@ -164,6 +164,7 @@ class World:
         self.cap = int(sc.get('cap', 300))
         self.maxdepth = int(sc.get('maxdepth', 3))
         self._in_watch = False
+        self.finished = False
         self.accepted: set = set()
 
     # -- trace
@@ -791,6 +792,7 @@ def run_scenario(sc: dict, *, keep_world: bool = False, spin_budget: int = 60_00
             await asyncio.sleep(POLL_SILENCE)
         out['iter0'] = getattr(loop, 'iterations', 0)
         inj = sc.get('inject')
+        out['_main_task'] = asyncio.current_task()
         if inj:
             from bvt import inject
 
@@ -810,7 +812,8 @@ def run_scenario(sc: dict, *, keep_world: bool = False, spin_budget: int = 60_00
                 continue
             silent += step
             actors_done = all(a.done() for a in actors)
-            if actors_done and not w.running and silent >= POLL_SILENCE:
+            inj_done = all(t.done() for t in w.keep if isinstance(t, asyncio.Task))
+            if actors_done and inj_done and not w.running and silent >= POLL_SILENCE:
                 break
             if silent > limit:
                 out['hang'] = {
@@ -824,6 +827,7 @@ def run_scenario(sc: dict, *, keep_world: bool = False, spin_budget: int = 60_00
         for a in actors:
             if a.done() and not a.cancelled() and a.exception() is not None:
                 raise HarnessError(f'actor failed: {a.exception()!r}')
+        w.finished = True
         w.rec('quiet')
         out['final'] = {tag: w.snap(tag) for tag in w.events}
         out['history'] = {b.name: [getattr(e, 'tag', None) for e in b.event_history.values()] for b in w.buses}
@@ -845,6 +849,7 @@ def run_scenario(sc: dict, *, keep_world: bool = False, spin_budget: int = 60_00
     finally:
         _teardown(loop, w, wal_ctx)
     out.pop('_actor_tasks', None)
+    out.pop('_main_task', None)
     out['trace'] = w.trace
     out['stability'] = w.stability
     out['roots'] = list(w.roots)
